@@ -8,8 +8,8 @@ import LlgoVerif.Spec.DeferSem
     `frame <stmts> <hist>`                        frame layer only: calls made by `Model.unwindView` and by `Spec.unwindView`
                                                   (`hist` = statement indices, comma separated, oldest first; payload = position)
 
-    prog  := fn ('|' fn)*            fn := capR ';' stmts ';' events
-    stmts := '' | stmt (',' stmt)*   stmt := kind '.' clo '.' nargs '.' fn        kind ∈ a c l
+    prog  := fn ('|' fn)*            fn := capR [entryFrame] ';' stmts ';' events
+    stmts := '' | stmt (',' stmt)*   stmt := kind '.' clo '.' nargs '.' fn        kind ∈ a c l x
     events:= '' | ev (',' ev)*       ev := d.k(.arg)* | c.g(.arg)* | m.int | p.arg | f | R | t | e | s.up.var.arg | a.up.var.arg | w.up.var
     arg   := l<int> | x | r | p<nat>
     answer: `<status> <flags> <trace>`; status ∈ ok, U:<v>, ub, stuck; trace lines joined by `|`, tokens by `.`  -/
@@ -36,7 +36,7 @@ def parseBool (s : String) : Option Bool :=
 def parseStmt (s : String) : Option Stmt :=
   match s.splitOn "." with
   | [k, c, n, f] => do
-    let kind ← (if k = "a" then some Kind.always else if k = "c" then some Kind.cond else if k = "l" then some Kind.loop else none)
+    let kind ← (if k = "a" then some Kind.always else if k = "c" then some Kind.cond else if k = "l" then some Kind.loop else if k = "x" then some Kind.ext else none)
     pure ⟨kind, ← parseBool c, ← n.toNat?, ← f.toNat?⟩
   | _ => none
 
@@ -60,7 +60,11 @@ def parseList {α : Type} (f : String → Option α) (s : String) : Option (List
 
 def parseFn (s : String) : Option Fn :=
   match s.splitOn ";" with
-  | [c, ss, evs] => do pure ⟨← parseList parseStmt ss, ← parseList parseEv evs, ← parseBool c⟩
+  | [c, ss, evs] =>
+    match c.toList with
+    | [a] => do pure ⟨← parseList parseStmt ss, ← parseList parseEv evs, ← parseBool (String.singleton a), false⟩
+    | [a, b] => do pure ⟨← parseList parseStmt ss, ← parseList parseEv evs, ← parseBool (String.singleton a), ← parseBool (String.singleton b)⟩
+    | _ => none
   | _ => none
 
 def parseProg (s : String) : Option Prog := do
